@@ -341,6 +341,11 @@ func randomServers(r *rand.Rand, n int) []SrvDef {
 
 var wantSample = map[string]bool{"GET/refused": true, "GET/executed": true, "POST/protoErr": true, "none/none": true, "FORM/executed": true, "GRAPHQL/protoErr": true}
 
+type pendingViolation struct {
+	key, detail string
+	sc          scenario
+}
+
 type job struct {
 	srv  SrvDef
 	cfg  string // base cfg whose Servers line is replaced
@@ -464,6 +469,9 @@ func main() {
 		tried                                        = map[string]bool{} // method|has body|Content-Type literal, on POST-first servers
 		actionMin                                    = map[string]int64{}
 	)
+	var pending []pendingViolation
+	reportedKey := map[string]bool{}
+	violationsSeen := 0
 	t0 := time.Now()
 	var tlcWall float64
 	for out := range tlcCh {
@@ -579,7 +587,11 @@ func main() {
 						}
 						sc := scenario{Server: def, Line: l, Request: conc, Observed: obs}
 						for _, v := range vs {
-							c.Violate(v.key, fmt.Sprintf("server %s %v\nrequest: %s /graphql?%s headers=%v body=%q\n%s", def.ID, def.Ts, conc.Method, conc.Query, conc.Headers[1:], conc.Body, v.detail), sc)
+							classMu.Lock()
+							if len(pending) < 4000 {
+								pending = append(pending, pendingViolation{v.key, fmt.Sprintf("server %s %v\nrequest: %s /graphql?%s headers=%v body=%q\n%s", def.ID, def.Ts, conc.Method, conc.Query, conc.Headers[1:], conc.Body, v.detail), sc})
+							}
+							classMu.Unlock()
 						}
 						cls := fmt.Sprintf("%s/%s/%s/%s/%s/%s/acc=%s/up=%v/%s", l.Tk, l.Cls, l.Val, l.M, l.Carry, l.Ct, strings.Join(l.Acc, "+"), l.Up, l.Src)
 						c.Class(cls)
@@ -610,6 +622,24 @@ func main() {
 		close(idx)
 		wg.Wait()
 		ls.close()
+		// report one violation per distinct key first (the direct statements of
+		// the property before everything else); repeats of a key are only counted
+		sort.SliceStable(pending, func(i, j int) bool {
+			di := strings.HasPrefix(pending[i].key, "get-executed-non-query") || strings.HasPrefix(pending[i].key, "resolver-ran")
+			dj := strings.HasPrefix(pending[j].key, "get-executed-non-query") || strings.HasPrefix(pending[j].key, "resolver-ran")
+			if di != dj {
+				return di
+			}
+			return pending[i].key < pending[j].key
+		})
+		for _, pv := range pending {
+			violationsSeen++
+			if !reportedKey[pv.key] {
+				reportedKey[pv.key] = true
+				c.Violate(pv.key, pv.detail, pv.sc)
+			}
+		}
+		pending = nil
 		fmt.Fprintf(os.Stderr, "server %s: TLC %d distinct states in %.1fs, %d requests replayed (total %.1fs)\n",
 			out.id, out.res.Distinct, out.res.WallS, len(reqLines), time.Since(t0).Seconds())
 	}
@@ -643,6 +673,7 @@ func main() {
 		"a distinct class = (transport, outcome class, validity, method, carrier, content type, Accept list, Upgrade, query source); media type literals found in the tree under test are extra Content-Type spellings, tried round-robin in every (method, carrier) cell")
 	c.Set("exhaustive", true)
 	c.Set("servers", ids)
+	c.Set("violating_comparisons", violationsSeen)
 	c.Set("media_type_literals_in_tree", allLits)
 	c.Set("media_type_literals_tried_as_other_content_type", extraLits)
 	c.Set("method_body_literal_triples_tried_on_post_first_servers", len(tried))
